@@ -235,6 +235,13 @@ def booldef(p=1, q=0.0, r=True, s=''):
   return _r.rec('booldef', locals())
 
 
+def slow_node(uid=None, a=None, b=None, c=None, *va, **vk):
+  """Like node, but gives other threads a chance to run while it is being evaluated."""
+  import time
+  time.sleep(0.0005)
+  return _r.rec('slow_node', locals())
+
+
 def fresh_list():
   return _r.rec('fresh_list', {})
 
